@@ -91,7 +91,7 @@ Fixpoint obs_fine (ds : list (list Z)) (os : list obs) : bool :=
   | _, _ => false
   end.
 Definition C06_oracle_ok (c : C06_case) : bool :=
-  obs_fine (map X (c6_dgrams c)) (c6_obs c) && (c6_probe c =? 1).
+  obs_fine (map X (c6_dgrams c)) (c6_obs c) && negb (c6_probe c =? 0).
 
 (* --------------------------------------------------------- known classes
    keyed by the panic site (file) / HANG and the trigger found in the datagrams handled so far *)
